@@ -582,6 +582,16 @@ impl World {
                 let signing = if sig == "bad" { mk_key(0xEE) } else { clone_key(&self.parties[pi].key) };
                 // "junk0" / "junk63" / "zero64": bytes that are no signature at all in the place of the id-signature
                 let crafted = match sig {
+                    // "relay": the claimed node's genuine signature, but made for a handshake with the *relaying* party (which passed the
+                    // node's challenge on as its own): it names the relayer, not this node, as the challenger
+                    "relay" => {
+                        let ci = self.parties.iter().position(|p| p.id == claim).unwrap_or(pi);
+                        let renr = self.parties[pi].enrs[&1].clone();
+                        match NodeContact::try_from_enr(renr.clone(), IpMode::Ip4).or_else(|_| NodeContact::try_from_enr(renr, IpMode::Ip6)) {
+                            Ok(rcontact) => PeerSession::answer_challenge(&rcontact, &clone_key(&self.parties[ci].key), rec, &claim, &aad, &plain),
+                            Err(_) => Err("relayer has no contactable record".to_string()),
+                        }
+                    }
                     "junk0" => PeerSession::answer_challenge_with_sig(&lcontact, vec![], rec, &claim, &aad, &plain),
                     "junk63" => PeerSession::answer_challenge_with_sig(&lcontact, vec![0x5a; 63], rec, &claim, &aad, &plain),
                     "zero64" => PeerSession::answer_challenge_with_sig(&lcontact, vec![0; 64], rec, &claim, &aad, &plain),
